@@ -554,7 +554,7 @@ func c17rangeCrossesFiles(c *an.Ctx) {
 	if f == nil {
 		return
 	}
-	next := f.Find(call(r, RL+":entryLog.getEntryFile")).Filter("inside the read loop", func(s an.Site) bool { return loopOf(f, s.Node) != nil })
+	next := f.Find(call(r, RL+":entryLog.getEntryFile")).WithWrappers().Filter("(or a faithful wrapper) inside the read loop", func(s an.Site) bool { return loopOf(f, s.Node) != nil })
 	// (a) the unused slot sets the slot cursor to the end-of-file value …
 	maxN := obj(r, RL+":maxNumEntries")
 	var offV types.Object
